@@ -20,6 +20,7 @@ def read_records(path):
 def filter_like(prop, tier, seed, replay, unk):
     """C09 / C18: admission rule and option algebra."""
     t0 = time.time()
+    os.environ["PROP"] = prop
     wd = workdir(prop)
     bindir = build_harness()
     out = os.path.join(wd, "rec")
@@ -231,6 +232,7 @@ def simple_records(prop, tier, seed, replay, *, model, driver_cmd, replay_cmd, t
     record per line, each judged independently."""
     t0 = time.time()
     wd = workdir(prop)
+    os.environ["PROP"] = prop      # trace specifications that judge several properties judge this one only
     states = trans = 1
     minfo = {}
     if not replay and model and not os.environ.get("VERIF_NO_MODEL"):
